@@ -713,3 +713,17 @@ def _m_filter_outputs(mod):
         return False
 
     return mod if replace_in_func(mod, "load_model", edit) else None
+
+
+@SPEC.mutant("cache file named after the short class name", API, "R19.14", "load_model")
+def _m_short_name(mod):
+    def edit(fn):
+        for st in ast.walk(fn):
+            if isinstance(st, ast.Assign) and is_name(st.targets[0], "db_file"):
+                for x in ast.walk(st.value):
+                    if isinstance(x, ast.BinOp) and is_name(x.left, "model_name"):
+                        x.left = ast.parse("model_name.rpartition('.')[2]", mode="eval").body
+                        return True
+        return False
+
+    return mod if replace_in_func(mod, "load_model", edit) else None
